@@ -21,24 +21,33 @@ from vlib.shrink import ddmin
 
 META = {
     'level_text': 'Theorems (for all interleavings of any number of connections and updaters, all module/parameter names as strings, any '
-                  'outcome of the logging switch-off, on the labelled transition system that models the repaired dispatcher): '
-                  'snapshot_complete, no_loss, quiescent_last_eq_cache, silent_after_deactivate (+ explicit index form), '
-                  'others_unaffected, deactivate_exact (the string tests of unsubscribe = the matching deactivate), deadlock_free.  The model is tied to frappy/protocol/dispatcher.py and modulebase.announceUpdate '
-                  'by replaying every explored schedule of the real code label by label (lock acquire/release, send, end) on the model '
-                  'and comparing the global observable trace and the final cache; the Lean monitors of Spec/C08 judge every '
-                  'implementation trace.',
-    'level_note': 'Trusted: Lean kernel + axioms propext/Classical.choice/Quot.sound; the deterministic scheduler preempts only at lock '
-                  'and send primitives; threading.RLock, the TCP handler send lock and set iteration order are modelled, not verified; '
-                  'omit_unchanged_within = 0.',
+                  'outcome of the logging switch-off, any per-parameter choice of "unchanged values are / are not re-announced", on the '
+                  'labelled transition system that models the repaired dispatcher): '
+                  'snapshot_complete, no_loss, quiescent_last_eq_cache, silent_after_deactivate, each also in an index form that says the '
+                  'English sentence without the monitor (silent_after_deactivate_explicit, snapshot_complete_explicit with replies_match, '
+                  'no_loss_explicit with firm_in_force_explicit; snapshot_monitor_sound / noloss_monitor_sound for ANY trace, i.e. also '
+                  'for the implementation traces the monitors judge), others_unaffected, tables_others_unaffected + broadcast_leaves_tables '
+                  '(no action changes a table row of another connection; an updater changes none), tables_own (every table entry under '
+                  'whatever key is an activation of that very connection still possibly in force), deactivate_exact (the string tests of '
+                  'unsubscribe = the matching deactivate), deadlock_free.  The model is tied to frappy/protocol/dispatcher.py and '
+                  'modulebase.announceUpdate by replaying every explored schedule of the real code label by label (request arrival, lock '
+                  'acquire/release, send, end) on the model and comparing the global observable trace, the final cache and the '
+                  'dispatcher\'s tables (_active_connections, _subscriptions) after every completed operation; the Lean monitors of '
+                  'Spec/C08 judge every implementation trace.',
+    'level_note': 'Trusted: Lean kernel + axioms propext/Classical.choice/Quot.sound; the deterministic scheduler preempts only at request '
+                  'arrival, lock and send primitives; threading.RLock, the TCP handler send lock and set iteration order are modelled, not '
+                  'verified; the omit window of a parameter is either 0 or longer than the run.',
     'trusted': [
-        'the scheduler yields only at lock acquire/release and at send_reply: a preemption inside broadcast_event between the three '
-        'set reads is not exercised by the harness (the model covers it by the lock discipline: the sets are only read and written '
-        'under _subscription_lock)',
-        'omit_unchanged_within = 0: every value assignment is announced',
-        'paramCallbacks fire right after the store under the update lock and before the broadcast (this is where the harness '
-        'records the `emit` event)',
+        'the scheduler yields only at request arrival, lock acquire/release and at send_reply: a preemption inside broadcast_event '
+        'between the three set reads is not exercised by the harness (the model covers it by the lock discipline: the sets are only read '
+        'and written under _subscription_lock, and the tables are compared with the model after every completed operation)',
+        'omit window for unchanged values: per parameter either 0 (update_unchanged=\'always\') or longer than the run '
+        '(update_unchanged=\'never\', a long omit_unchanged_within); a window that ends during a run is not modelled',
+        'the `emit` event is recorded by a paramCallback, i.e. right after the store under the update lock and before the broadcast '
+        '(a different order in announceUpdate shows as a correspondence disagreement, not as a verdict)',
         'the reply of a request is sent by the connection thread after handle_request returned, outside every dispatcher lock '
-        '(frappy/protocol/interface/handler.py), which the harness thread reproduces',
+        '(frappy/protocol/interface/handler.py), which the harness thread reproduces; the request marker is written by the harness '
+        'thread right after the `recv` scheduling point',
     ],
     'modelled_not_verified': [
         'Python threading.RLock semantics (mutual exclusion, re-entrance, no fairness)',
@@ -46,8 +55,10 @@ META = {
         'iteration order of the listener set in broadcast_event (the model allows any order; the replay follows the real one)',
     ],
     'assumptions': ['updaters assign through setattr / announceUpdate only; values are integral floats; errors are SECoP error classes',
-                    'one request thread per connection; a connection is disconnected by its own thread'],
+                    'one request thread per connection; a connection is disconnected by its own thread',
+                    'updates are produced by updater (poller) threads, not by read/change requests of a connection'],
 }
+
 
 class SerialPolicy:
     """operation-level interleaving: a thread that has started a request / an assignment runs it to its end (all locks
@@ -778,8 +789,8 @@ def run(ctx):
         for fn in sorted(os.listdir(cdir)):
             if fn.endswith('.json'):
                 case = json.load(open(os.path.join(cdir, fn)))['case']
-                _, obs = run_case(case, ReplayThenDefault(case.get('choices', [])))
-                record('corpus', dict(case, choices=obs['choices']), obs)
+                _, obs = run_case(case, policy_for(case))
+                record('corpus', case if 'serial' in case and 'choices' not in case else dict(case, choices=obs['choices']), obs)
     # ---------- catalogue + generated scenarios ----------
     for kind, base in scenarios:
         def make_run(policy, base=base):
